@@ -310,6 +310,24 @@ CLAIMS['C16'] = dict(
     technique='rank (shape) abstract interpretation + symbolic child '
     'geometry + normalised-AST shape rules', engine='E6-mesh')
 
+CLAIMS['C08'] = dict(
+    category='other',
+    text='Rank analysis of the scalar contexts between linform and the '
+    'domain mesh (the load is computable for every admitted input shape); '
+    'CAS certificates for the E1 time kernel incl. the a == 0 case and the '
+    'inline copy; prefactor = cell area x segment length x (4 pi)^-1 once '
+    'per branch, distances from the mapped points, linearity in u0, '
+    'one-identical-cell assertion, sum over all leaf cells; Jacobians, '
+    'tiling and degree loss of the two 3-D Duffy rules; pointwise integrand '
+    '= G_t u0; shipped closed-form potentials solve the heat equation with '
+    'initial trace u0.  The 1e-5 accuracy is not decided.',
+    design_ref='DESIGN.md section 3 E2 (K6-K8), E5 (R-prefactor), E8 '
+    '(R-scalar), section 4 C08',
+    note='Trusted: ast, sympy, NumPy>=2 scalar rule.  Not decided: accuracy '
+    'of the 3-D rules; numerical additivity.',
+    technique='rank abstract interpretation + CAS certificates + monomial '
+    'prefactor algebra + symbolic Duffy maps', engine='E5-quadalg')
+
 PENDING = 'rule set not yet implemented in this build (see DESIGN.md Appendix F for the order)'
 NA = {
     'C13':
